@@ -554,7 +554,7 @@ pub fn run_stall(toks: &[&str]) -> String {
                         unsafe { ((base + OFF_GENERATION) as *mut u16).write_volatile(g + 1) };
                     }
                 }
-                if n == 3 && mode == 1 {
+                if n == 3 && (mode == 1 || mode == 6) {
                     // the daemon starts an update right after the reader's first generation load, then stalls
                     unsafe { ((base + OFF_GENERATION) as *mut u16).write_volatile(3) };
                 }
@@ -577,9 +577,22 @@ pub fn run_stall(toks: &[&str]) -> String {
         }
         Reply::Pass
     })));
+    if mode == 6 {
+        // as mode 1, under a clock that stands two hundred microseconds before a full second when the call
+        // begins and moves on by a microsecond at every reading: a call that looks at the clock sees the
+        // seconds field change under it (a call that does not is unaffected)
+        crate::vclock::set_mono(100, 999_800_000);
+        crate::vclock::set_real(1_700_000_000, 999_800_000);
+        crate::vclock::set_hook(Some(Box::new(|_clk| crate::vclock::advance(1000))));
+        crate::vclock::enable(true);
+    }
     let t0 = std::time::Instant::now();
     let r = reader.snapshot().map(|c| *c);
     let dt = t0.elapsed();
+    if mode == 6 {
+        crate::vclock::enable(false);
+        crate::vclock::set_hook(None);
+    }
     verif::install(None);
     let res = match r {
         Ok(_) => {
